@@ -40,6 +40,6 @@ McCatalogue == <<
 
 McFields == {"_id", "a", "b", "c"}
 McFieldBytes == ("_id" :> <<95, 105, 100>>) @@ ("a" :> <<97>>) @@ ("b" :> <<98>>) @@ ("c" :> <<99>>)
-McNormOf == [p \in McFields \X (0..24) |-> p]           \* the norm key itself: injective
+McNormTable == [f \in McFields |-> [i \in 1..25 |-> <<f, i - 1>>]]      \* the norm key itself: injective
 
 =============================================================================
